@@ -81,6 +81,29 @@ Proof.
   destruct (lookup_level reg (map to_upper a)); reflexivity.
 Qed.
 
+(* the four parse_range theorems cover every string: no "~", exactly one, two or more *)
+Lemma first_occ (t : N) (l : bytes) : ~ In t l \/ exists a r, l = a ++ t :: r /\ ~ In t a.
+Proof.
+  induction l as [|x l IH]; [left; intros []|].
+  destruct (N.eq_dec x t) as [->|Hne].
+  - right. exists [], l. split; [reflexivity|intros []].
+  - destruct IH as [H|(a & r & -> & Ha)].
+    + left. intros [H1|H1]; [congruence|contradiction].
+    + right. exists (x :: a), r. split; [reflexivity|]. intros [H1|H1]; [congruence|contradiction].
+Qed.
+
+Theorem range_string_cases (t : bytes) :
+  t = [] \/ (t <> [] /\ ~ In tilde t) \/
+  (exists a b, t = a ++ tilde :: b /\ ~ In tilde a /\ ~ In tilde b) \/
+  (exists a b c, t = a ++ tilde :: b ++ tilde :: c /\ ~ In tilde a /\ ~ In tilde b).
+Proof.
+  destruct (first_occ tilde t) as [H|(a & r & E & Ha)].
+  - destruct t as [|x t']; [left; reflexivity|]. right; left. split; [discriminate|exact H].
+  - right; right. destruct (first_occ tilde r) as [Hr|(b & c & Er & Hb)].
+    + left. exists a, r. auto.
+    + right. subst r. exists a, b, c. auto.
+Qed.
+
 (* the generated level table is well formed: distinct names, strictly increasing codes,
    NONE lowest, MAX highest, and it contains the levels the entry points use *)
 Definition table_wf_b : bool :=
